@@ -17,7 +17,7 @@ META = {
                   "the same bindings (names mangled), and is one compile() accepts when the Hy pattern is well formed; a "
                   "match form evaluates to the result of the first case whose pattern matches and whose guard holds -- "
                   "guards compiling to statements are lifted into functions that the right case calls -- and to None "
-                  "otherwise; a pattern compile_pattern rejects (`p :as _`, (| ...) with fewer than two alternatives, "
+                  "otherwise; a pattern compile_pattern rejects (`p :as n` for any spelling n of _, (| ...) with fewer than two alternatives, "
                   "(. ...) without an attribute) is exactly one whose emitted node compile() would reject. "
                   "Three defects the first version refuted (class-pattern keywords not mangled, the string "
                   "literals \"None\"/\"True\"/\"False\", #* _) were repaired in /repo (7ce654c, 05b9a7b, 24b6ab7); their "
@@ -42,7 +42,8 @@ TRUSTED = [
 ]
 
 IMPORTS = ["HyV.Ops.PyMatch", "HyV.Gen.MatchTables", "HyV.Ops.Pattern", "HyV.Ops.PatternVal"]
-MANGLE = {"a-b": "a_b", "v-1": "v_1", "v-2": "v_2", "k-one": "k_one", "r-est": "r_est", "w-x": "w_x"}
+MANGLE = {"a-b": "a_b", "v-1": "v_1", "v-2": "v_2", "k-one": "k_one", "r-est": "r_est", "w-x": "w_x",
+          "\uff3f": "_"}   # FULLWIDTH LOW LINE: another spelling of _ (d26852d)
 DEFS = ("Open Scope string_scope.\nDefinition mg (s : string) : string := %s.\n"
         "Definition nm : list (list string * cval) := [([\"mm\"; \"K\"], CInt 5); ([\"mm\"; \"S\"], CStr \"s\"); "
         "([\"mm\"; \"k_one\"], CInt 1)].\n" % (
@@ -392,7 +393,7 @@ def run(chk):
         "#**, dotted value and class names, class keyword attributes); (| p q) is p | q; :name is hy.models.Keyword(\"name\")",
         "repeated captures and irrefutable non-final cases are rejected by Python in both renderings and are compared as "
         "errors of the same kind; (| ...) with fewer than two alternatives, (. ...) with fewer than two symbols and "
-        "`p :as _` have no Python rendering: they must be HySyntaxError (commits 61b21a1, d2a83e6, 8cfcf87), judged in a "
+        "`p :as n` with n mangling to _ have no Python rendering: they must be HySyntaxError (commits 61b21a1, d2a83e6, 8cfcf87, d26852d), judged in a "
         "phase of their own",
         "subjects: ints, strings, bytes, floats, None/True/False, lists, tuples, dicts, Keyword objects, instances of a class "
         "with __match_args__ and of one without",
